@@ -358,7 +358,8 @@ func genSeqOps(r *Rand, styleOnly bool) string {
 		}
 		switch r.Intn(12) {
 		case 0:
-			ops = append(ops, "D:"+hx(r.Pick([]string{"/new/dir", "/new/dir/", "", "rel", "/", "/a#b", "/sh010.comp"})))
+			ops = append(ops, "D:"+hx(r.Pick([]string{"/new/dir", "/new/dir/", "", "rel", "/", "/a#b", "/sh010.comp",
+				"C:\\shows\\abc", "C:\\shows\\abc\\", "C:\\shows/abc/renders", "\\\\srv\\share/x/", "a\\b/"})))
 		case 1:
 			ops = append(ops, "B:"+hx(r.Pick([]string{"other.", "other", "", "o1", "o-", "x#", "foo1.", "a,"})))
 		case 2:
@@ -374,7 +375,7 @@ func genSeqOps(r *Rand, styleOnly bool) string {
 		case 7:
 			ops = append(ops, "F:"+hx(r.Pick([]string{genRangeText(r), "nope", "5", "1-3,10-8"})))
 		case 8:
-			ops = append(ops, "N")
+			ops = append(ops, r.Pick([]string{"N", "V", "V"}))
 		case 9, 10:
 			ops = append(ops, "C")
 		default:
